@@ -37,9 +37,14 @@ class SpartanProtocol(BaseGopherProtocol):
         self.selector = urllib.parse.unquote(path, errors="surrogateescape")
         self.selector = self.slashnormalize(self.selector)
 
-        content_length = int(content_length)
+        try:
+            content_length = int(content_length)
+            data = self.rfile.read(content_length) if content_length else b""
+        except (ValueError, OverflowError):
+            # More digits than int() converts, or more bytes than can be read
+            self.write_status(4, "Bad content length")
+            return
         if content_length:
-            data = self.rfile.read(content_length)
             self.searchrequest = data.decode(errors="surrogateescape")
 
         try:
